@@ -91,7 +91,7 @@ namespace sim
 
         [[noreturn]] void die(const char *what, int code)
         {
-            hv::Line("simfail").str("what", what).i("seq", st.steps).i("wall", now).emit();
+            hv::Line("simfail").str("what", what).i("seq", st.steps).i("wall", now - cfg.start_wall_us).emit();
             for (Th *t : threads)
                 hv::Line("simthread").i("th", t->id).str("name", t->name).i("st", t->st).b("timed", t->timed).i("wake", t->wake).emit();
             hv::log_flush();
@@ -121,7 +121,7 @@ namespace sim
                     long long d = 1 + static_cast<long long>(rng_fault.next() % static_cast<unsigned long long>(std::max<long long>(1, cfg.stall_max_us)));
                     now += d;
                     ++st.stalls;
-                    if (log_on) hv::Line("sched").str("why", "stall").i("us", d).i("seq", st.steps).i("wall", now).emit();
+                    if (log_on) hv::Line("sched").str("why", "stall").i("us", d).i("seq", st.steps).i("wall", now - cfg.start_wall_us).emit();
                 }
                 expire_timed();
                 if (cfg.p_spurious > 0 && rng_fault.unit() < cfg.p_spurious)
@@ -134,7 +134,7 @@ namespace sim
                         t->st        = RUN;
                         t->timed_out = false;
                         ++st.spurious;
-                        if (log_on) hv::Line("sched").str("why", "spurious").i("th", t->id).i("seq", st.steps).i("wall", now).emit();
+                        if (log_on) hv::Line("sched").str("why", "spurious").i("th", t->id).i("seq", st.steps).i("wall", now - cfg.start_wall_us).emit();
                     }
                 }
                 std::vector<Th *> runnable;
@@ -160,7 +160,7 @@ namespace sim
                     // nobody is runnable, so nobody is left who could still notify: a *forced* timeout
                     ++st.forced_timeouts;
                     if (log_on)
-                        hv::Line("sched").str("why", "forced_timeout").i("th", best->id).str("kind", best->st == SLEEPING ? "sleep" : "cond").i("seq", st.steps).i("wall", now).emit();
+                        hv::Line("sched").str("why", "forced_timeout").i("th", best->id).str("kind", best->st == SLEEPING ? "sleep" : "cond").i("seq", st.steps).i("wall", now - cfg.start_wall_us).emit();
                     expire_timed();
                     continue;
                 }
